@@ -332,6 +332,9 @@ def gen_pairs(rng, n):
         ('identical', (12.5, -33.25), (12.5, -33.25)),
         ('antipodal-exact', (0.0, 0.0), (-180.0, 0.0)),
         ('antipodal-exact', (45.0, 30.0), (-135.0, -30.0)),
+        ('antipodal-exact', (-180.0, -12.0), (0.0, 12.0)),        # D28 regression (ValueError before the repair)
+        ('antipodal-exact', (-180.0, -82.0), (0.0, 82.0)),        # D28 regression
+        ('near-antipodal', (95.510992422296, -39.29178039849763), (-84.48900746021036, 39.291780388493244)),   # D28
         ('polar', (10.0, 90.0), (-70.0, 45.0)),
         ('polar', (10.0, -90.0), (100.0, 90.0)),
         ('polar', (33.0, 12.0), (-20.0, 90.0)),
@@ -420,16 +423,6 @@ def gen_rots(rng, n):
 
 
 # ------------------------------------------------------------------ the property evaluated on the implementation (oracle)
-def haversine_domain_error_near_antipode(case):
-    """signature of D23: the pair is within ~10 m of antipodal and haversine_distance_meters raises ValueError"""
-    p, q = tuple(case['p']), tuple(case['q'])
-    return great_circle_ref(p, q)[0] > HALF - 10.0 and \
-        guarded(lambda: haversine_distance_meters(C(p), C(q))) == ('Err', 'ValueError')
-
-
-PREDICATES = {'haversine_domain_error_near_antipode': haversine_domain_error_near_antipode}
-
-
 def oracle_pair(p, q, obs, rng, stats):
     """list of (clause, detail) violated by the implementation's own answers on this pair"""
     bad = []
@@ -597,11 +590,6 @@ def main():
             nontrivial.add((p, q))
         m = {'k': 'pair', 'class': cls, 'p': p, 'q': q, 'obs': {k: v[1] for k, v in obs.items()}}
         for clause, detail in oracle_pair(p, q, obs, rng, stats):
-            f = ck.finding_for(m, PREDICATES) if clause.startswith('no_exception:h') else None
-            if f:
-                ck.known(f)
-                stats['known:' + f['id']] = stats.get('known:' + f['id'], 0) + 1
-                continue
             violations.append(dict(m, clause=clause, detail=detail))
         if i < n_pairs_k and all(v[0] == 'Ok' for v in obs.values()):
             addk('hdist', k_hdist(f'k_h_{i}', p, q, obs['h'][1]), m)
